@@ -49,7 +49,10 @@ def openAxes (s : Suite) (c : Case) : List String :=
 def specName (join : List String → String) (s : Suite) (c : Case) (t : Test) : String :=
   join ([s.name] ++ openAxes s c ++ [t.name])
 
-/-- what the request of the permutation carries -/
+/-- what the request of the permutation carries: the case's version, protocol, codec, compression;
+the TLS markers (server-certificate placeholder iff the case uses TLS, client-credential
+placeholders iff it also uses client certificates); service and method; the receive limit the
+runner always sets -/
 def specPerm (join : List String → String) (s : Suite) (c : Case) (t : Test) : Perm :=
   { fullName := specName join s c t, simpleName := t.name,
     v := c.v, p := c.p, c := c.c, z := c.z, st := t.st,
@@ -57,6 +60,9 @@ def specPerm (join : List String → String) (s : Suite) (c : Case) (t : Test) :
     service := if t.service = "" ∧ t.method = "" then serviceName else t.service,
     method := if t.service = "" ∧ t.method = "" then defaultMethod t.st else t.method,
     rawRequest := t.rawRequest, rawResponse := t.rawResponse,
+    certText := if c.tls then placeholder else "",
+    credsText := if c.tls ∧ c.certs then placeholder ++ "|" ++ placeholder else "",
+    recvLimit := clientReceiveLimit,
     suite := s.name, case := c, test := t }
 
 /-- all permutations, by comprehension over suites × given cases × tests -/
@@ -78,22 +84,61 @@ def ServiceMethodOk (t : Test) : Prop := (t.service = "" ↔ t.method = "")
 
 instance (t : Test) : Decidable (ServiceMethodOk t) := by unfold ServiceMethodOk; infer_instance
 
+/-- no relevant list of the suite lists the value the case has on that axis twice -/
+def NoRepeat (s : Suite) (c : Case) : Prop :=
+  s.protocols.count c.p ≤ 1 ∧ s.versions.count c.v ≤ 1 ∧ s.codecs.count c.c ≤ 1 ∧ s.comps.count c.z ≤ 1
+
+instance (s : Suite) (c : Case) : Decidable (NoRepeat s c) := by unfold NoRepeat; infer_instance
+
 /-- The suite definitions are well-formed relative to a run: suites are named (distinctly) and
-non-empty; a suite taking part is not misconfigured and lists no relevant value twice; where it
-meets a config case every test has
-a name and a stream type and the tests of that stream type have service and method given together;
-and no two permutations spell the same name. -/
+non-empty; a suite taking part is not misconfigured; where it meets a config case every test has
+a name and a stream type, the tests of that stream type have service and method given together,
+and — when there is such a test — no relevant list repeats the case's value (the code would look
+the case up twice and define every permutation twice); and no two permutations spell the same
+name.  `newLibrary_accepts_iff` (Props/C07) proves that this is exactly what the code accepts. -/
 def WellFormed (join : List String → String) (suites : List Suite) (cases : List Case) (mode : Mode) : Prop :=
   (∀ s ∈ suites, s.name ≠ "" ∧ s.tests ≠ []) ∧
   (suites.map (·.name)).Nodup ∧
-  (∀ s ∈ suites, ModeAdmits s mode → ¬ Misconfigured s ∧
-    s.protocols.Nodup ∧ s.versions.Nodup ∧ s.codecs.Nodup ∧ s.comps.Nodup) ∧
+  (∀ s ∈ suites, ModeAdmits s mode → ¬ Misconfigured s) ∧
   (∀ s ∈ suites, ∀ c ∈ cases, Admits s mode c →
-    ∀ t ∈ s.tests, t.name ≠ "" ∧ t.st ≠ .unspec ∧ (t.st = c.s → ServiceMethodOk t)) ∧
+    (∀ t ∈ s.tests, t.name ≠ "" ∧ t.st ≠ .unspec ∧ (t.st = c.s → ServiceMethodOk t)) ∧
+    ((∃ t ∈ s.tests, t.st = c.s) → NoRepeat s c)) ∧
   ((specList join suites cases mode).map (·.fullName)).Nodup
 
 instance (join : List String → String) (suites : List Suite) (cases : List Case) (mode : Mode) :
     Decidable (WellFormed join suites cases mode) := by unfold WellFormed; infer_instance
+
+/-! ### when names cannot collide -/
+
+/-- the '/'-separated segments of a name -/
+def segments (x : String) : List (List Char) := splitSlash x.toList
+
+/-- a path segment `path.Clean` leaves alone: not empty, not `.`, not `..` -/
+def CleanSeg (seg : List Char) : Prop := seg ≠ [] ∧ seg ≠ ['.'] ∧ seg ≠ ['.', '.']
+
+instance (seg : List Char) : Decidable (CleanSeg seg) := by unfold CleanSeg; infer_instance
+
+/-- a name `path.Join` does not rewrite: every segment is clean (so: not empty, no leading,
+trailing or doubled slash, no `.` or `..` segment) -/
+def CleanName (x : String) : Prop := ∀ seg ∈ segments x, CleanSeg seg
+
+instance (x : String) : Decidable (CleanName x) := by unfold CleanName; infer_instance
+
+/-- The condition under which full names identify definitions: every suite name and every test
+name is clean, and no suite name is, segment-wise, a proper prefix of another suite's name
+(`a` and `a/b`: test `b/c` of the first and test `c` of the second would both be `a/b/c`). -/
+def NamesClean (suites : List Suite) : Prop :=
+  (∀ s ∈ suites, CleanName s.name ∧ ∀ t ∈ s.tests, CleanName t.name) ∧
+  (∀ s₁ ∈ suites, ∀ s₂ ∈ suites, segments s₁.name <+: segments s₂.name → s₁.name = s₂.name)
+
+instance (suites : List Suite) : Decidable (NamesClean suites) := by unfold NamesClean; infer_instance
+
+/-- no definition is duplicated: suite names differ and, inside a suite, test names differ -/
+def DefinitionsDistinct (suites : List Suite) : Prop :=
+  (suites.map (·.name)).Nodup ∧ ∀ s ∈ suites, (s.tests.map (·.name)).Nodup
+
+instance (suites : List Suite) : Decidable (DefinitionsDistinct suites) := by
+  unfold DefinitionsDistinct; infer_instance
 
 /-- "grouped under exactly one server instance": the buckets have distinct keys, every
 permutation name sits in exactly one bucket, exactly once, that bucket's key is the permutation's
